@@ -199,17 +199,17 @@ func C14(e *core.Env) {
 	g6 := mkGraph(6)
 	cases = append(cases, lexCase{g: g6, root: &root,
 		sourceMaps: [][]lexEntry{
-			{{NodeID(0), rng("3", "0", "12", "4")}, {ExNS + "kid", rng("1", "1", "1", "2")}},                                  // node entry + property-level entry
-			{{NodeID(1), rng("2147483648", "0", "18446744073709551616", "9")}, {NodeID(2), rng("9", "10", "10", "9")}},          // several entries in one map
-			{{NodeID(2), rng("7", "7", "8", "8")}},                                                                                 // a second map for node 2: last wins
+			{{NodeID(0), rng("3", "0", "12", "4")}, {ExNS + "kid", rng("1", "1", "1", "2")}},                           // node entry + property-level entry
+			{{NodeID(1), rng("2147483648", "0", "18446744073709551616", "9")}, {NodeID(2), rng("9", "10", "10", "9")}}, // several entries in one map
+			{{NodeID(2), rng("7", "7", "8", "8")}},                                                                     // a second map for node 2: last wins
 			{{DataNS + "not-a-node", rng("5", "5", "5", "5")}, {NodeID(4), rng("0", "0", "0", "0")}},
 			{},
 		},
 		additional: []locNode{{"file:///api/lib/single.raml", []string{NodeID(1)}}, {"file:///api/lib/two.raml", []string{NodeID(2), NodeID(4)}}, {"file:///api/lib/again.raml", []string{NodeID(4)}}}})
-	cases = append(cases, lexCase{g: g6, sourceMaps: [][]lexEntry{{{NodeID(0), rng("1", "2", "3", "4")}, {NodeID(3), rng("5", "6", "7", "8")}}}})                       // no source information
-	cases = append(cases, lexCase{g: g6, root: &root})                                                                                                                  // source information, no source maps
-	cases = append(cases, lexCase{g: g6})                                                                                                                               // nothing
-	cases = append(cases, lexCase{g: g6, root: &root, extraInfos: []string{"file:///api/other.raml"}, sourceMaps: [][]lexEntry{{{NodeID(5), rng("1", "1", "2", "2")}}}}) // two source-information nodes
+	cases = append(cases, lexCase{g: g6, sourceMaps: [][]lexEntry{{{NodeID(0), rng("1", "2", "3", "4")}, {NodeID(3), rng("5", "6", "7", "8")}}}})                                 // no source information
+	cases = append(cases, lexCase{g: g6, root: &root})                                                                                                                            // source information, no source maps
+	cases = append(cases, lexCase{g: g6})                                                                                                                                         // nothing
+	cases = append(cases, lexCase{g: g6, root: &root, extraInfos: []string{"file:///api/other.raml"}, sourceMaps: [][]lexEntry{{{NodeID(5), rng("1", "1", "2", "2")}}}})          // two source-information nodes
 	cases = append(cases, lexCase{g: g6, root: &root, sourceMaps: [][]lexEntry{{{NodeID(0), "[(1,2)-(3)]"}, {NodeID(1), "no digits"}, {NodeID(2), "(1,2)-(3,4) trailing 5 6"}}}}) // fewer than four numbers, leading zeros, more than four
 	// file names that are not plain ASCII paths: a space, non-ASCII letters, dot segments, a relative reference, a query
 	sp := "file:///api/my api/root file.raml"
